@@ -1,5 +1,6 @@
 pub mod c01;
 pub mod c02;
+pub mod c02_gen;
 pub mod c03;
 pub mod c04;
 pub mod c05;
